@@ -154,6 +154,12 @@ def main():
             for r in range(0, top + 1):
                 stages.append(((r, None), None, regs))
             stats['loop_stages'] += 1
+        if not inline and rng.random() < 0.3:
+            # a command to another light inside the block (it loads the NAME register): the
+            # block's result still goes to the light named in the `set`
+            body.insert(rng.randrange(0, len(body) + 1),
+                        ('action', rng.choice(['on', 'off']), [('light', ('str', 'N'))]))
+            stats['other_light_in_block'] = stats.get('other_light_in_block', 0) + 1
         if inline:
             regs_stmts, rows_rv, cols_rv, cf = body
             prog = pre + helpers + regs_stmts + \
@@ -177,7 +183,8 @@ def main():
                           'script rejected or aborted: {} {}'.format(res.errors.strip()[:80], res.fault),
                           {'script': c.text})
             continue
-        dev_events = [e for e in res.events if e[0] in ('C', 'P', 'Z', 'T', 'AC', 'AP')]
+        dev_events = [e for e in res.events if e[0] in ('C', 'P', 'Z', 'T', 'AC', 'AP')
+                      and not (e[0] == 'P' and e[1] == 'N')]
         kind = c.expect[0]
         mode = c.expect[3]
         stats['modes'][mode] = stats['modes'].get(mode, 0) + 1
@@ -236,7 +243,8 @@ def main():
     chk.coverage['distribution'] = stats
     chk.coverage['rule'] = (
         'zone ranges on multizone lights of length 1-82 and one-line / block matrix commands on '
-        'matrices 1x1-16x8, ranges given as literals, variables, expressions and loop indices, rows '
+        'matrices 1x1-16x8 (blocks also with a command to another light inside: the result goes to '
+        'the light named in the set), ranges given as literals, variables, expressions and loop indices, rows '
         'and columns in either order, with and without a saved default, in the three unit modes; '
         'the state of the simulated device and the single message it received are compared with '
         'the cells the property describes, cell colours with what a plain `set` transmits for the '
